@@ -109,8 +109,9 @@ def cosim(design, vectors, sequential, top_name=None, text=None, stop_on_x=True)
     out.interp = it
     mi = d.mods[top]
     inmap = {}
+    pnames = design.meta.get('port_names', {})
     for w in design.ins:
-        pn = port_name(mi, w.name)
+        pn = port_name(mi, pnames.get(w.name, w.name))
         if pn is None or mi.syms[pn].dir != 'input':
             out.status = 'invalid_text'
             out.detail = 'input port for wire %s missing in module header' % w.name
@@ -118,7 +119,7 @@ def cosim(design, vectors, sequential, top_name=None, text=None, stop_on_x=True)
         inmap[w.name] = pn
     outmap = {}
     for w in design.outs:
-        pn = port_name(mi, w.name)
+        pn = port_name(mi, pnames.get(w.name, w.name))
         if pn is None or mi.syms[pn].dir != 'output':
             out.status = 'invalid_text'
             out.detail = 'output port for wire %s missing in module header' % w.name
